@@ -4,6 +4,9 @@ import z3
 from .types import parse_type, is_ref, ENUMS, show
 
 
+FIELD_INVARIANTS = {}      # field name -> (z3 term -> z3 Bool): invariants of immutable data structures, assumed at reads
+
+
 class Unsupported(Exception):
     """Construct outside the supported subset: the obligations of the function become undecided."""
 
@@ -286,6 +289,8 @@ class State:
         z = self.select(self.map("f_" + fname, self.ctx.sort_of(t)), ref)
         v = V(t, z, none)
         self._wf_ref(v)
+        if fname in FIELD_INVARIANTS and self.qmode is None:
+            self.assume(FIELD_INVARIANTS[fname](z))       # data-structure invariant of the owning class (stated in decls.py)
         return v
 
     def write_field(self, obj: V, fname: str, val: V):
